@@ -423,7 +423,7 @@ def check_thomas(chk, lib, rule):
 
 
 # --------------------------------------------------------------------------- 3-point NotAKnot arm
-def check_three_point(chk, lib, rule):
+def check_three_point(chk, lib, rule, det_only=False):
     m, out, ex = run_solve(lib, mixed('NotAKnot', 'NotAKnot'), 3)
     where = lib.body(SFK)['span']
     if ex is not None:
@@ -440,6 +440,8 @@ def check_three_point(chk, lib, rule):
     sub = {str(Y(j)): cubic(X(j)).subs(para) for j in range(3)}
     ks = {'k%d' % j: dcubic(X(j)).subs(para) for j in range(3)}
     for i, F in enumerate(rows):
+        if det_only:
+            break
         Fp = F.subs(sub).subs(ks)
         chk.ob(rule, "3-point NotAKnot: row %d vanishes for the parabola through the three points with k = p'" % i, Fp.is_zero(), where,
                'three-point-row%d' % i, str(Fp)[:300])
